@@ -3,6 +3,7 @@ package main
 // Control flow: path enumeration, loop cut points, returns.
 
 import (
+	"strings"
 	"fmt"
 	"go/types"
 	"sort"
@@ -247,6 +248,24 @@ func (fv *FV) execBlock(st *State, b *ssa.BasicBlock, pred *ssa.BasicBlock) {
 			}
 		}
 		st.alloc = na
+		// objects that exist at the loop head only reference objects that exist at the loop head
+		// (the havocked content of loop-modified heaps is otherwise unconstrained)
+		{
+			keys := make([]string, 0, len(fv.heapsUsed))
+			for k := range fv.heapsUsed {
+				keys = append(keys, k)
+			}
+			sortStrings(keys)
+			for _, k := range keys {
+				h, ok := st.heaps[k]
+				if !ok {
+					continue
+				}
+				if conds := fv.wfCond("(select "+h+" r)", fv.heapsUsed[k], na, 0); len(conds) > 0 {
+					st.assume(fmt.Sprintf("(forall ((r Int)) (! (=> (<= r %s) (and %s)) :pattern ((select %s r))))", na, strings.Join(conds, " "), h))
+				}
+			}
+		}
 		for _, in := range b.Instrs {
 			phi, ok := in.(*ssa.Phi)
 			if !ok {
